@@ -79,3 +79,14 @@ pub fn lib_ctx_name(c: Ctx) -> &'static str {
         Ctx::Tap => "tap",
     }
 }
+
+/// Does every miniscript of `d` pass the default sanity rules of its context?
+pub fn is_sane(d: &MDesc) -> bool {
+    let ctx = d.ctx();
+    d.nodes().iter().all(|n| match ctx {
+        Ctx::Bare => ms_from_node::<BareCtx>(n, Level::Sane, true).is_ok(),
+        Ctx::Legacy => ms_from_node::<Legacy>(n, Level::Sane, true).is_ok(),
+        Ctx::Segwitv0 => ms_from_node::<Segwitv0>(n, Level::Sane, true).is_ok(),
+        Ctx::Tap => ms_from_node::<Tap>(n, Level::Sane, true).is_ok(),
+    })
+}
